@@ -409,7 +409,22 @@ func rulePLAN2(c *Ctx) []Ob {
 			key := c.fname(fn) + "/Intersect"
 			pos := relPath(c, call.Pos())
 			cases := c.opCases(fn, "BinaryCriteria", "OpType")
-			if guardedBy(fn, call.Block(), cases[andK]) {
+			// a helper that merges two sets of ranges and is itself called only for conjunctions
+			viaCallers := false
+			if !guardedBy(fn, call.Block(), cases[andK]) && fn.Parent() == nil {
+				if sites := c.staticCallers(fn); len(sites) > 0 {
+					viaCallers = true
+					for _, cs := range sites {
+						caller := cs.Parent()
+						if caller == nil || !guardedBy(caller, cs.Block(), c.opCases(caller, "BinaryCriteria", "OpType")[andK]) {
+							viaCallers = false
+						}
+					}
+				}
+			}
+			if viaCallers {
+				o.add(OK, key, pos, "the helper is called only on the path where the visited node is a conjunction")
+			} else if guardedBy(fn, call.Block(), cases[andK]) {
 				o.add(OK, key, pos, "ranges are intersected only on the path where the visited node is a conjunction")
 			} else {
 				o.add(VIOLATED, key, pos, "the value ranges of the two sides are intersected without the node being known to be an And: under Or the intersection excludes documents that satisfy only one side")
